@@ -10,6 +10,7 @@ package c03
 import (
 	"encoding/json"
 	"fmt"
+	"net"
 	"os"
 	"sort"
 	"strconv"
@@ -161,6 +162,9 @@ func (fs *faultState) at(where, stage string) *fault {
 	return nil
 }
 
+// leakVerdicts counts the clause-e violations this process has reported (see runScenario).
+var leakVerdicts atomic.Int32
+
 // ---- one case ----
 
 type rig struct {
@@ -173,6 +177,9 @@ type rig struct {
 	fs      *faultState
 	endp    *smtpendp.Endpoint
 	addr    string
+
+	dl1   *sessionDeadlock // first snapshot showing the session deadlocked (taken while a reply was overdue)
+	stuck *sessionDeadlock // confirmed by a second snapshot after the client had closed its socket
 }
 
 func buildRig(sc *scenario, id string) (*rig, error) {
@@ -254,11 +261,15 @@ func buildRig(sc *scenario, id string) (*rig, error) {
 		if try > 0 {
 			time.Sleep(time.Duration(try) * 5 * time.Millisecond) // the port we were given got taken; ask again
 		}
-		port, err := freePort()
+		host := "127.0.0.1"
+		if sc.V6 {
+			host = "::1"
+		}
+		port, err := freePort(host)
 		if err != nil {
 			return nil, err
 		}
-		addr := "127.0.0.1:" + strconv.Itoa(port)
+		addr := net.JoinHostPort(host, strconv.Itoa(port))
 		m, err := smtpendp.New(sc.modName(), []string{"tcp://" + addr})
 		if err != nil {
 			return nil, err
@@ -377,7 +388,8 @@ func TestVerif(t *testing.T) {
 		log.DefaultLogger.Out = log.FuncOutput(func(_ time.Time, _ bool, s string) { serverLog.add(s) }, func() error { return nil })
 	}
 	n := r.N(quickCases, thoroughCases)
-	if os.Getenv("VERIF_C03_ONLY") == "limits" { // drills only: the run is then inconclusive by min_observed
+	only := os.Getenv("VERIF_C03_ONLY") // drills only: the run is then inconclusive by min_observed
+	if only == "limits" || only == "hostile" {
 		n = 0
 	}
 	for i := 0; i < n; i++ {
@@ -385,6 +397,18 @@ func TestVerif(t *testing.T) {
 	}
 	// group L: transactions refused by the limits block itself (limits_test.go)
 	nl := r.N(quickLimitCases, thoroughLimitCases)
+	if only == "hostile" {
+		nl = 0
+	}
+	// group X: DATA cut at every structural point, commands inside a chunked transfer (hostile_test.go)
+	nx := r.N(quickHostileCases, thoroughHostileCases)
+	if only == "limits" {
+		nx = 0
+	}
+	for j := 0; j < nx; j++ {
+		i := hostileBase + j
+		r.Run(i, fmt.Sprintf("hostile-%d", j), func(c *rep.Case) { runHostileCase(t, r, c, i) })
+	}
 	for j := 0; j < nl; j++ {
 		i := limitsBase + j
 		r.Run(i, fmt.Sprintf("limits-%d", j), func(c *rep.Case) { runLimitsCase(t, r, c, i) })
@@ -396,6 +420,12 @@ func runCase(t *testing.T, r *rep.Reporter, c *rep.Case, i int) {
 	sc := genScenario(p, i)
 	// recipient rewriting by static replace_rcpt tables: its own stream, drawn after the session
 	genAlias(prng.New(r.Seed(), uint64(i), "c03-alias"), sc)
+	// buffer mode of the endpoint and address family of the connection: their own stream
+	genEnv(prng.New(r.Seed(), uint64(i), "c03-env"), sc)
+	runScenario(t, r, c, i, sc)
+}
+
+func runScenario(t *testing.T, r *rep.Reporter, c *rep.Case, i int, sc *scenario) {
 	serverLog.reset()
 	rg, err := buildRig(sc, strconv.Itoa(i))
 	if err != nil {
@@ -412,6 +442,14 @@ func runCase(t *testing.T, r *rep.Reporter, c *rep.Case, i int) {
 		return
 	}
 	eng := newEngine(sc, cl)
+	cl.stall = func() string {
+		r.Count("stall_snapshots", 1)
+		if d := findSessionDeadlock(); d != nil {
+			rg.dl1 = d
+			return d.class()
+		}
+		return ""
+	}
 	greeting := cl.readReply()
 	if greeting.Code != 220 {
 		c.Inconclusive("no 220 greeting: " + greeting.String())
@@ -419,7 +457,14 @@ func runCase(t *testing.T, r *rep.Reporter, c *rep.Case, i int) {
 		return
 	}
 	eng.run()
+	stuckServer := ""
+	if cl.watchdog {
+		stuckServer = serverGoroutines() // before the client closes its socket
+	}
 	eofObserved := eng.finish()
+	if cl.watchdog && stuckServer == "" {
+		stuckServer = serverGoroutines()
+	}
 
 	witness := func(extra map[string]any) map[string]any {
 		w := map[string]any{
@@ -437,13 +482,28 @@ func runCase(t *testing.T, r *rep.Reporter, c *rep.Case, i int) {
 
 	// ---- logical end of the session ----
 	ended := eofObserved
-	if !ended {
+	if cl.deadlock != "" {
+		// The client has closed its socket. A second consistent snapshot must show the same two
+		// goroutines parked in the same places: then the session can make no step any more while the
+		// endpoint is up (see deadlock_test.go) - whatever it holds now it holds for ever, and that is
+		// judged like the state at the end of the session. Otherwise: ordinary wait, no verdict from it.
+		r.Count("deadlock_first_snapshots", 1)
+		if d2 := findSessionDeadlock(); rg.dl1 != nil && rg.dl1.same(d2) {
+			rg.stuck = d2
+			ended = true
+			r.Count("deadlocks_proven", 1)
+			r.Distinct("deadlock_classes", d2.class()+"/after="+eng.stuckOp)
+		} else {
+			ended = rg.waitIdle()
+			c.Inconclusive("a reply never came and the deadlock seen in the first goroutine snapshot was gone in the second")
+		}
+	} else if !ended {
 		ended = rg.waitIdle()
 	} else if rg.endp.ConnectionCount() != 0 {
 		r.Count("sessions_connection_count_nonzero_after_close", 1)
 	}
 	if cl.watchdog {
-		c.Inconclusive("reply watchdog expired")
+		c.Inconclusive("reply watchdog expired; server goroutines: " + stuckServer)
 		r.Count("reply_watchdog", 1)
 		ended = false
 	} else if !ended {
@@ -452,7 +512,13 @@ func runCase(t *testing.T, r *rep.Reporter, c *rep.Case, i int) {
 	mark := rg.lg.Len()
 
 	// ---- permit probe (clause e) ----
-	if ended {
+	// (not made for a deadlocked session: its permits are as stuck as its delivery, which clause a reports)
+	// Efficiency only: a leaked permit costs the probe 2 x 5 s inside limits.TakeMsg. Once this process has
+	// reported three clause-e violations the verdict of the run is settled and further sessions are not
+	// probed (never the case on a tree that returns its permits).
+	if ended && rg.stuck == nil && leakVerdicts.Load() >= 3 {
+		r.Count("probes_skipped_after_three_leak_verdicts", 1)
+	} else if ended && rg.stuck == nil {
 		rg.fs.off.Store(true)
 		var doms []string
 		for d := range eng.probeDomains {
@@ -475,18 +541,25 @@ func runCase(t *testing.T, r *rep.Reporter, c *rep.Case, i int) {
 		case problem != "":
 			c.Inconclusive(problem)
 		case len(leaked) > 0:
+			leakVerdicts.Add(1)
 			c.Violation(leakSignature(sc, eng, leaked),
 				fmt.Sprintf("after the session ended a new transaction from sender domain(s) %q is refused with 451 4.4.5 twice: a rate/concurrency permit taken during the session was not returned", leaked),
 				witness(map[string]any{"probe": ptr}))
 		default:
 			if sc.Limits {
 				r.Count("probe_permit_available", 1)
+				if sc.V6 {
+					r.Count("probe_permit_available_ipv6", 1)
+				}
 			}
 		}
 	}
 
 	// ---- typestate / reply oracle ----
 	judge(r, c, sc, rg, eng, mark, ended, witness)
+	if rg.stuck != nil && !c.Violated() {
+		c.Inconclusive("the session is deadlocked (" + rg.stuck.class() + ") but holds no open delivery")
+	}
 
 	rg.endp.Close()
 
@@ -526,7 +599,8 @@ func runCase(t *testing.T, r *rep.Reporter, c *rep.Case, i int) {
 	}
 	r.Count("sessions_"+sc.kindTag(), 1)
 	r.Count("session_end_"+sc.End, 1)
-	if i < 3 || (len(sc.Alias) > 0 && i < 12) {
+	countEnv(r, sc, rg, eng)
+	if i < 3 || (len(sc.Alias) > 0 && i < 12) || (sc.Hostile != nil && i-hostileBase < 2) {
 		r.Sample(map[string]any{"kind": sc.kindTag(), "config": sc.Config, "faults": sc.Faults, "transcript": cl.transcript, "target_log": rg.lg.Strings(40)})
 	}
 	c.Done(shapeOf(sc, rg, eng), nontrivial(rg, mark))
